@@ -50,10 +50,13 @@ class CommonJSONDecoder(json.JSONDecoder):
                 (isoformat, tzofs, tzname) = obj['type{datetime}']
                 parsed = datetime.datetime \
                     .strptime(isoformat, DATETIME_P_FORMAT)
-                if tzname is not None:
+                if tzofs is not None:
+                    # zone-aware iff an offset was stored (a tzinfo may have no name, e.g. dateutil's
+                    # tzoffset(None, 19800): such a value must not come back naive)
+                    delta = datetime.timedelta(seconds=tzofs)
+                    tz = datetime.timezone(delta, tzname) if tzname is not None else datetime.timezone(delta)
                     return datetime.datetime \
-                        .combine(parsed.date(), parsed.time(),
-                                 datetime.timezone(datetime.timedelta(seconds=tzofs), tzname))
+                        .combine(parsed.date(), parsed.time(), tz)
                 else:
                     return parsed
             except ValueError:
